@@ -70,7 +70,12 @@ class ParseError(TypeError, ValueError):
     def formatted_message(self):
         msg = self.msg
         if self.item:
-            msg = f"parse item: [{repr(self.item)}] failed: {msg}"
+            try:
+                item = repr(self.item)
+            except Exception:  # noqa
+                # a preserved key whose text cannot be made (an int beyond the digit limit, a raising __repr__)
+                item = f"<{type(self.item).__name__}>"
+            msg = f"parse item: [{item}] failed: {msg}"
         if isinstance(self.origin_exc, Exception) and not isinstance(self.origin_exc, ParseError):
             msg = f'{self.origin_exc.__class__.__name__}: {msg}'
         return msg
